@@ -368,3 +368,9 @@ func symbolicValues2() *world.Values {
 		Invalid:      verif.Bool("v2_invalid"),
 	}
 }
+
+type (
+	responseWriter = http.ResponseWriter
+	request        = http.Request
+	handlerFunc    = http.HandlerFunc
+)
